@@ -388,7 +388,7 @@ func (sel *Selection) Delete() (err error) {
 	}
 	defer func() {
 		if endErr := sel.endEdit(NodeRequest{Source: sel, Delete: true, EditRoot: true}, true); endErr != nil {
-			err = fmt.Errorf("error during endEdit: %v, previous error: %w", endErr, err)
+			err = endEditError(endErr, err)
 		}
 	}()
 
@@ -417,6 +417,15 @@ func (sel *Selection) Delete() (err error) {
 		}
 	}
 	return
+}
+
+// endEditError keeps both the error of EndEdit and the error of the edit itself
+// findable with errors.Is
+func endEditError(endErr error, editErr error) error {
+	if editErr == nil {
+		return fmt.Errorf("error during endEdit: %w", endErr)
+	}
+	return fmt.Errorf("error during endEdit: %w, previous error: %w", endErr, editErr)
 }
 
 func findIntParam(params map[string][]string, param string) (int, bool, error) {
